@@ -5,6 +5,7 @@ package main
 import (
 	"strings"
 	"unicode"
+	"unicode/utf8"
 )
 
 // C19 — search query parsing against a reference reading of docs/API.md "Query Language",
@@ -189,12 +190,13 @@ func harnessC19Normalize(nTags, maxLen int, alphabet string) {
 	out := normalizeTags(src)
 	verifAssert(len(out) <= globals.maxTagCount, "tag-count-limit")
 	for i, tg := range out {
-		verifAssert(len(tg) >= minTagLength && len(tg) <= maxTagLength, "tag-length")
+		nr := utf8.RuneCountInString(tg)
+		verifAssert(nr >= minTagLength && nr <= maxTagLength, "tag-length-in-characters")
 		verifAssert(tg[0] != ' ' && tg[len(tg)-1] != ' ', "tag-trimmed")
 		for j := 0; j < len(tg); j++ {
 			verifAssert(!('A' <= tg[j] && tg[j] <= 'Z'), "tag-lower-case")
 		}
-		r := rune(tg[0])
+		r, _ := utf8.DecodeRuneInString(tg)
 		verifAssert(unicode.IsLetter(r) || unicode.IsDigit(r), "tag-starts-with-letter-or-digit")
 		if i > 0 {
 			verifAssert(out[i-1] < tg, "tags-sorted-and-unique")
@@ -204,4 +206,5 @@ func harnessC19Normalize(nTags, maxLen int, alphabet string) {
 }
 
 func Harness_C19_normalize_2x3() { harnessC19Normalize(2, 3, "aB1 -") }
+func Harness_C19_normalize_utf8() { harnessC19Normalize(1, 4, "a \xc3\xa9") }
 func Harness_C19_normalize_3x2() { harnessC19Normalize(3, 2, "aB1 -") }
